@@ -201,6 +201,8 @@ impl<'a, D> BfsPred<'a, D> {
         let visited_ptr = visited.as_mut_ptr();
 
         for u in sources {
+            assert!(u < order, "u = {u} isn't in the digraph");
+
             queue.push_back((None, u));
 
             unsafe {
@@ -584,6 +586,11 @@ where
         let visited_ptr = self.visited.as_mut_ptr();
 
         for u in self.digraph.out_neighbors(v) {
+            assert!(
+                u < self.visited.len(),
+                "u = {u} isn't in the digraph"
+            );
+
             let visited_u = unsafe { visited_ptr.add(u) };
 
             unsafe {
